@@ -237,6 +237,7 @@ func (w *W) Event(obj any, e Event) {
 	}
 	mc.Yield("log."+e.Kind, obj)
 	w.Events = append(w.Events, e)
+	mc.Observe(fmt.Sprintf("%s n%d c%d %s t%d %s", e.Kind, e.Node, e.Conn, e.Method, e.Tok, e.Payload))
 	mc.HarnessRelease()
 }
 
@@ -464,6 +465,7 @@ func (w *W) Invoke(c *Call) {
 	mc.Yield("call.return", &c.obj)
 	c.Resp, c.Err = resp, err
 	c.Returned = true
+	mc.Observe(fmt.Sprintf("return t%d err=%v", c.Tok, err != nil))
 	mc.HarnessRelease()
 }
 
